@@ -26,6 +26,8 @@ type c17Case struct {
 	Rows       []c17Row
 	Mode       int // 0 primary only, 1 also a restored snapshot, 2 also a stream replica
 	Busy       bool
+	Big        bool // 16384 rows without TTL first; a slow transaction then inserts into the next block while the cleanup ticks
+	ConcExtend int  // number of goroutines that extend one long-TTL row concurrently (0 = none)
 }
 
 func (c c17Case) String() string {
@@ -33,7 +35,7 @@ func (c c17Case) String() string {
 	for _, r := range c.Rows {
 		n[r.Kind]++
 	}
-	return fmt.Sprintf("vacuum=%dms rows{noTTL:%d ttl0:%d short:%d long:%d extended:%d reset-to-short:%d} mode=%d busy=%v", c.IntervalMs, n[0], n[1], n[2], n[3], n[4], n[5], c.Mode, c.Busy)
+	return fmt.Sprintf("big=%v concExtend=%d vacuum=%dms rows{noTTL:%d ttl0:%d short:%d long:%d extended:%d reset-to-short:%d} mode=%d busy=%v", c.Big, c.ConcExtend, c.IntervalMs, n[0], n[1], n[2], n[3], n[4], n[5], c.Mode, c.Busy)
 }
 
 type c17Tracked struct {
@@ -93,6 +95,40 @@ func runC17Case(cs c17Case) (nontrivial bool, err error) {
 	defer c.Close()
 	var rows []c17Tracked
 	offsets := map[uint64]uint32{}
+	if cs.Big {
+		// a full first block of rows that never expire
+		c.Query(func(txn *column.Txn) error {
+			for i := 0; i < 16384; i++ {
+				id := uint64(1<<32 + i)
+				txn.Insert(func(row column.Row) error { row.SetUint64("id", id); return nil })
+			}
+			return nil
+		})
+		for i := 0; i < 16384; i += 1024 {
+			rows = append(rows, c17Tracked{uint64(1<<32 + i), time.Time{}})
+		}
+		// one slow transaction reserves offsets in the NEXT block while the cleanup keeps ticking
+		seen := map[uint32]bool{}
+		dup := ""
+		c.Query(func(txn *column.Txn) error {
+			for i := 0; i < 30; i++ {
+				id := uint64(2<<32 + i)
+				off, _ := txn.Insert(func(row column.Row) error { row.SetUint64("id", id); return nil })
+				if seen[off] && dup == "" {
+					dup = fmt.Sprintf("offset %d was handed out twice inside one transaction while the cleanup was running", off)
+				}
+				seen[off] = true
+				time.Sleep(time.Duration(cs.IntervalMs) * time.Millisecond / 2)
+			}
+			return nil
+		})
+		if dup != "" {
+			return false, fmt.Errorf("%s", dup)
+		}
+		for i := 0; i < 30; i++ {
+			rows = append(rows, c17Tracked{uint64(2<<32 + i), time.Time{}})
+		}
+	}
 	for i, r := range cs.Rows {
 		id := uint64(i + 1)
 		var until time.Time
@@ -138,6 +174,35 @@ func runC17Case(cs c17Case) (nontrivial bool, err error) {
 			until = time.Time{}
 		}
 		rows = append(rows, c17Tracked{id, until})
+	}
+	if cs.ConcExtend > 0 {
+		// extending the TTL moves the deadline accordingly - also when several transactions extend one row at once
+		id := uint64(3 << 32)
+		var until time.Time
+		off, _ := c.Insert(func(row column.Row) error { row.SetUint64("id", id); until = row.SetTTL(time.Hour); return nil })
+		const each = 25
+		var ewg sync.WaitGroup
+		for g := 0; g < cs.ConcExtend; g++ {
+			ewg.Add(1)
+			go func() {
+				defer ewg.Done()
+				for k := 0; k < each; k++ {
+					c.Query(func(txn *column.Txn) error {
+						return txn.QueryAt(off, func(column.Row) error { txn.TTL().Extend(time.Minute); return nil })
+					})
+				}
+			}()
+		}
+		ewg.Wait()
+		var stored int64
+		c.QueryAt(off, func(row column.Row) error { stored, _ = row.Int64("expire"); return nil })
+		want := until.Add(time.Duration(cs.ConcExtend*each) * time.Minute)
+		if stored != want.UnixNano() {
+			return false, fmt.Errorf("row id=%d: %d goroutines extended its TTL %d times by 1m each; the stored deadline is %s, initial deadline + all extensions is %s (%d extensions lost)",
+				id, cs.ConcExtend, each, time.Unix(0, stored).Format("15:04:05.000"), want.Format("15:04:05.000"), (want.UnixNano()-stored)/int64(time.Minute))
+		}
+		rows = append(rows, c17Tracked{id, want})
+		offsets[id] = off
 	}
 	// derived collections whose own vacuum must behave identically
 	derived := map[string]*column.Collection{}
@@ -261,6 +326,10 @@ func TestC17(t *testing.T) {
 		cases := make([]c17Case, par)
 		for i := range cases {
 			cs := c17Case{IntervalMs: rapid.SampledFrom([]int{1, 5, 20}).Draw(t, "interval"), Mode: rapid.IntRange(0, 2).Draw(t, "mode"), Busy: rapid.Bool().Draw(t, "busy")}
+			cs.Big = rapid.IntRange(0, 7).Draw(t, "big") == 0
+			if rapid.IntRange(0, 2).Draw(t, "conc-extend") == 0 {
+				cs.ConcExtend = rapid.IntRange(2, 6).Draw(t, "extenders")
+			}
 			n := rapid.IntRange(2, 12).Draw(t, "nrows")
 			for j := 0; j < n; j++ {
 				cs.Rows = append(cs.Rows, c17Row{Kind: rapid.IntRange(0, 5).Draw(t, "kind"), TTLms: rapid.IntRange(10, 60).Draw(t, "ttl")})
